@@ -32,7 +32,8 @@ var lC09Bare = []string{"NOERROR", "NOERROR;;"}
 
 // lC09CNAMEs are spellings of CNAME values: short form and full form of the
 // same names.
-var lC09CNAMEs = []string{"x.net", "y.net", "NOERROR;CNAME;x.net", "NOERROR;CNAME;y.net"}
+// (N2: names that differ in letter case only are DIFFERENT new CNAMEs.)
+var lC09CNAMEs = []string{"x.net", "y.net", "NOERROR;CNAME;x.net", "NOERROR;CNAME;y.net", "X.net", "x.NET", "NOERROR;CNAME;X.net", "noerror;cname;x.net"}
 
 // lC09Rcodes are rcode-only values, keyword and full forms.
 var lC09Rcodes = []string{"NXDOMAIN", "REFUSED", "SERVFAIL", "NXDOMAIN;;", "REFUSED;;", "SERVFAIL;;"}
@@ -42,6 +43,11 @@ var lC09Rcodes = []string{"NXDOMAIN", "REFUSED", "SERVFAIL", "NXDOMAIN;;", "REFU
 var lC09Records = []string{
 	"1.2.3.4", "NOERROR;A;1.2.3.4", "1.2.3.5", "::1", "NOERROR;AAAA;::1",
 	"NOERROR;TXT;x.net", "NOERROR;PTR;x.net.", "NOERROR;MX;10 x.net", "NOERROR;MX;10 y.net",
+	// N2: values differing in ONE component (letter case, preference, priority / weight / port, one parameter, trailing dot)
+	"NOERROR;TXT;X.net", "NOERROR;PTR;X.net.", "NOERROR;PTR;x.net", "NOERROR;MX;10 X.net", "NOERROR;MX;266 x.net", "NOERROR;MX;11 x.net",
+	"NOERROR;SRV;1 2 80 x.net", "NOERROR;SRV;2 2 80 x.net", "NOERROR;SRV;1 258 80 x.net", "NOERROR;SRV;1 2 8080 x.net", "NOERROR;SRV;1 2 80 X.net",
+	"NOERROR;HTTPS;1 x.net alpn=h3", "NOERROR;HTTPS;2 x.net alpn=h3", "NOERROR;HTTPS;1 x.net alpn=h2", "NOERROR;HTTPS;1 x.net alpn=h3 port=443",
+	"NOERROR;HTTPS;1 x.net", "NOERROR;SVCB;1 x.net alpn=h3", "NOERROR;HTTPS;1 X.net alpn=h3", "2001:db8::1", "2001:db8::2", "NOERROR;AAAA;2001:db8::1",
 }
 
 // lC09NoHandler are successful responses of record types WITHOUT a value parser
